@@ -255,6 +255,33 @@ def finalize_violation(run, pool, job, res, known):
         if not (da and db and da != db):
             return "harness", "nondeterministic replay (I-HISTORY): %s" % path
         return "violation", path
+    if prog is not None and "threads" in prog:
+        # caller threads: drop baton switches while the violation persists, then replay in a fresh interpreter
+        from . import threads as T
+        try:
+            prog, mres = T.minimise(pool, prog, res)
+        except Exception as e:  # noqa
+            mres = res
+            run.phase_info.setdefault("minimise_errors", []).append(repr(e))
+        viol = mres["violation"]
+        rdir = replay_dir()
+        os.makedirs(rdir, exist_ok=True)
+        dg = hashlib.sha1(json.dumps(prog, sort_keys=True).encode()).hexdigest()[:10]
+        tag = "".join(ch if ch.isalnum() or ch in "-_.=" else "_" for ch in str(job.get("run_seed", job.get("id"))))[:80]
+        path = os.path.join(rdir, "%s-threads_%s-%s.json" % (run.prop, tag, dg))
+        fr = fresh_interpreter_run(prog, run.prop)
+        fv = fr.get("violation") or {}
+        same = (fr.get("status") == "violation" and fv.get("invariant") == viol["invariant"]
+                and fr.get("events_digest") == mres.get("events_digest"))
+        rec = {"property": run.prop, "verif_seed": run.seed, "run_seed": job.get("run_seed"), "tier": run.tier,
+               "job_kind": "threads", "program": prog, "violation": viol, "event_log_digest": mres.get("events_digest"),
+               "fresh_interpreter_replay": {"status": fr.get("status"), "invariant": fv.get("invariant"),
+                                            "events_digest": fr.get("events_digest"), "identical": same},
+               "how_to_replay": "./check replay %s" % path}
+        json.dump(rec, open(path, "w"), indent=1, default=str)
+        if not same:
+            return "harness", "nondeterministic replay (%s, caller threads): %s" % (viol["invariant"], path)
+        return "violation", path
     if prog is None or "steps" not in prog:
         prog = prog or {}
         mres = res
